@@ -9,7 +9,7 @@ CLAIM = dict(cat="proof", design="§3 C14, Appendix A.2",
         "no dump fails; afterwards the directory is exactly restart.dump = newest state and restart.i.back = the previous ones newest-first up to the configured number; and if the process dies after ANY prefix "
         "of the file-system operations of a dump (>=1 backup) a complete copy of the previous state is on disk. The pinned commit's loop bound is proved to fail (C14_wrapping_start_refuted, defect D5, fixed). "
         "Tie: on every run the real classes are executed in a scratch directory for all M x n in a box, one real process killed at every crash point (hook H5), and the directory left behind is compared with the model. Driver tie on the real binary: a task-based RHD run stopped by its wall-clock limit hands over to a resubmit command that copies restart.dump - the copy must be the complete final dump; with a restart folder other than '.', all dumps and backups are in that folder.",
-   note="Trusted: Coq kernel; ExtrOcamlBasic extraction + OCaml driver (correspondence only); file-system assumptions: atomic rename, unflushed ofstream data is lost at _exit; one RestartManager object per history.",
+   note="Driver ties (no model): wall-clock stop with a resubmit command (what the resubmitted job sees is the finished dump; restart folder honoured) and a stop file created after three regular dumps (exit 0, stop file consumed, dump and two complete backups). Trusted: Coq kernel; ExtrOcamlBasic extraction + OCaml driver (correspondence only); file-system assumptions: atomic rename, unflushed ofstream data is lost at _exit; one RestartManager object per history.",
    technique="Coq proof by induction over dump histories and operation prefixes + crash-injection correspondence")
 BEFORE_OPS = ("RM_before_rename_backup", "RM_before_rename_main", "RW_before_write", "RW_before_close")
 
